@@ -70,9 +70,12 @@ class SchedDict(dict):
             tl.sched.point(tid, (self.name, op))
     def _log(self, op, key, found, val=None):
         log = getattr(tl, 'log', None)
-        if log is not None and self.name == 'tr':
-            log.append({'op': op, 'key': self.env.qkey(key), 'found': found,
+        if log is None: return
+        if self.name == 'tr':
+            log.append({'cache': 'tr', 'op': op, 'key': self.env.qkey(key), 'found': found,
                         'pinned': self.env.pinned(val) if val is not None else None})
+        else:
+            log.append({'cache': self.name, 'op': op, 'key': self.env.atom(('memo', self.name, key)), 'found': found})
     def get(self, key, default=None):
         self._pt('get')
         r = dict.get(self, key, default)
@@ -96,9 +99,10 @@ class SchedDict(dict):
             self.env.keep.append(val)
             self.env.builder[id(val)] = getattr(tl, 'tid', None)
         dict.__setitem__(self, key, val)
-        self._log('set', key, True, val)
+        self._log('set', key, True, val if self.name == 'tr' else None)
     def __getitem__(self, key):
         self._pt('getitem')
+        self._log('getitem', key, dict.__contains__(self, key))
         return dict.__getitem__(self, key)
     def setdefault(self, key, default=None):
         self._pt('setdefault')
@@ -624,7 +628,38 @@ def part1(ctx, env):
     batch.flush()
 
 
-# ---------------------------------------------------------------- part 2: every shared cache (oracle only)
+# ---------------------------------------------------------------- part 2: every shared cache (memo tie + oracle)
+
+MEMO_EV = {('get', True): 'hit', ('get', False): 'miss', ('set', True): 'stored'}
+
+
+def memo_tie(ctx, batch, tr, inp):
+    """the accesses of every plain memo cache (all shared caches but the translator cache), in their global order, against the
+    concurrent memo model (Model/SharedMemo.lean): same threads, same keys looked up, same schedule -> same hit/miss/stored"""
+    if any(o['crash'] or any(r[0] != 'ok' for r in o['results']) for o in tr['outs']): return
+    pos = [0] * len(tr['outs']); events = []
+    for t in tr['picks']:
+        log = tr['outs'][t]['log']
+        if pos[t] >= len(log):
+            ctx.divergence('memo tie: a pick without a cache access', inp); return
+        events.append((t, log[pos[t]])); pos[t] += 1
+    if any(pos[t] != len(o['log']) for t, o in enumerate(tr['outs'])):
+        ctx.divergence('memo tie: more cache accesses than picks', inp); return
+    for name in ('string2ast', 'ast', 'extractors', 'adapted', 'csql'):
+        evs = [(t, e) for t, e in events if e['cache'] == name]
+        if not evs: continue
+        real = [MEMO_EV.get((e['op'], e['found']), e['op']) for _, e in evs]
+        progs = [[e['key'] for tt, e in evs if tt == t and e['op'] == 'get'] for t in range(len(tr['outs']))]
+        sched = [t for t, _ in evs]
+        def on_model(mout, name=name, real=real, progs=progs, sched=sched):
+            for ev in mout.get('events', []): ctx.count('memo:%s:%s' % (name, ev))
+            if mout.get('events') != real:
+                ctx.divergence('memo protocol of %s: model and real accesses disagree' % name, dict(inp, cache=name, keys=progs, sched=sched),
+                               model=mout.get('events'), impl=real)
+        batch.add({'op': 'memo', 'progs': progs, 'sched': sched}, on_model)
+
+
+
 
 def part2(ctx, env):
     from pony.orm import asttranslation, decompiling
@@ -656,6 +691,8 @@ def part2(ctx, env):
         return f
     def op_lam(x): return lambda env: sorted(e.id for e in E.select(lambda e: e.a >= x))
     def op_lamslice(n): return lambda env: sorted(e.id for e in E.select(lambda e: e.name[:n] != 'a'))
+    def op_limit(k): return lambda env: [e.id for e in E.select().order_by(E.id)[:k]]
+    def op_distinct(k): return lambda env: sorted(select(e.a % k for e in E).without_distinct()[:]) if k % 2 else sorted(select(e.a % k for e in E)[:])
     def op_get(i): return lambda env: E.get(a=i).name
     def op_pk(i): return lambda env: E[i].name
     def op_raw(x0):
@@ -672,9 +709,10 @@ def part2(ctx, env):
     def op_strfilter(k0):
         def f(env): k = k0; return [e.id for e in select(e for e in E).filter("e.name[k:] != ''").order_by("e.id")]
         return f
-    makers = [(op_strq, [1, 2, 3]), (op_strq2, [0, 2, 4]), (op_lam, [0, 2, 4]), (op_lamslice, [1, 2, 3]), (op_get, [1, 2, 3]), (op_pk, [1, 2, 3]),
+    makers = [(op_limit, [1, 2, 3, 4]), (op_distinct, [2, 3]), (op_strq, [1, 2, 3]), (op_strq2, [0, 2, 4]), (op_lam, [0, 2, 4]), (op_lamslice, [1, 2, 3]), (op_get, [1, 2, 3]), (op_pk, [1, 2, 3]),
               (op_raw, [0, 2, 4]), (op_rawent, [0, 2, 4]), (op_lazy, [1, 2, 3]), (op_coll, [1, 2, 3]), (op_count, [1, 2, 3]), (op_nav, [1, 2, 3]),
               (op_exists, [1, 3, 9]), (op_strfilter, [1, 2, 3])]
+    batch = Batch(ctx)
     saved_clear = env.clear_caches
     def clear_both():
         saved_clear(); clear_all()
@@ -700,6 +738,7 @@ def part2(ctx, env):
                 tr = run_real(env, progs, random_chooser(rng, rng.choice([0.0, 0.5])), yield_at=tuple(names))
                 inp = {'ops': desc, 'picks': tr['picks']}
                 ctx.case(inp, nontrivial=len(tr['picks']) > 3, kind='all-caches')
+                memo_tie(ctx, batch, tr, inp)
                 ctx.count('part2:picks', len(tr['picks']))
                 for t, out in enumerate(tr['outs']):
                     got = out['results'] if not out['crash'] else [['crash', out['crash']]]
@@ -711,6 +750,7 @@ def part2(ctx, env):
                                       '(shared cache interference)', inp, observed={'thread': t, 'op': j, 'got': got[j] if j < len(got) else None},
                                       expected=solo[t][j] if j < len(solo[t]) else None, key='shared-cache:%s:%s' % (opname, kind))
                         break
+        batch.flush()
     finally:
         env.clear_caches = saved_clear
         core.string2ast_cache, decompiling.ast_cache, asttranslation.extractors_cache, core.adapted_sql_cache, db._constructed_sql_cache = saved
